@@ -33,8 +33,7 @@ Section Statements.
     | S r =>
         let params := {| rp_init_peer := p; rp_current_peer := p; rp_timestamp := timestamp; rp_ttl := ttl |} in
         match run1 fuel {| ri_script := s; ri_params := params; ri_prev := prev; ri_cur := empty_data; ri_results := results |} with
-        | OutNewData code d next reqs _ =>
-            if negb (code =? 0)%Z then None else
+        | OutNewData _ d next reqs _ =>
             match next, reqs with
             | [], [] => Some []
             | [], _ => option_map (cons (map (call_of_request p) reqs)) (local_rounds r fuel p s d (map (answer_request p) reqs))
@@ -76,6 +75,42 @@ Section Statements.
         local_rounds rounds fuel p s empty_data [] = Some batches /\
         Permutation (concat batches) cs /\
         batches_ready p fs s batches.
+
+  (* the sub-fragment of the proved single-peer theorem: straight-line scripts -- call (target, service and
+     function literal; arguments literals or plain scalars), seq, xor, match / mismatch, fail, null, never *)
+  Definition lin_value (v : value) : bool :=
+    match v with
+    | VInitPeerId | VTimestamp | VTTL | VLiteral _ | VNumber _ | VBoolean _ | VEmptyArray | VScalar _ => true
+    | _ => false
+    end.
+  Fixpoint linear (p : string) (i : instr) : bool :=
+    match i with
+    | INull | INever => true
+    | ISeq a b | IXor a b => linear p a && linear p b
+    | ICall _ t args out =>
+        match t_peer t with PInitPeerId => true | PLiteral q => String.eqb q p | _ => false end &&
+        match t_service t, t_function t with SLiteral _, SLiteral _ => true | _, _ => false end &&
+        forallb lin_value args &&
+        match out with OutStream _ => false | _ => true end
+    | IMatch _ l r b | IMisMatch _ l r b => lin_value l && lin_value r && linear p b
+    | IFail _ (FLiteral _ _) => true
+    | _ => false
+    end.
+
+  (* return codes are i32 (CallServiceResult.ret_code) *)
+  Definition ret_codes_i32 : Prop :=
+    forall p s f args, (-2147483648 <= sa_ret_code (svc p s f args) <= 2147483647)%Z.
+
+  (* C16, single peer, straight-line scripts: every round requests exactly the next call of the sequential
+     reading, so the rounds request the calls of the reading one by one, in its order, with its arguments *)
+  Definition C16_local_linear_stmt : Prop :=
+    forall (p : string) (s : instr) (fs : nat) (cs : list call_ev) (e : env) (st : status),
+      ret_codes_i32 ->
+      linear p s = true -> names_ok [] s <> None ->
+      reading everything_known p fs s = Out cs e st ->
+      N.of_nat (length cs) < 4294967295 ->               (* request ids are u32 *)
+      exists rounds fuel,
+        local_rounds rounds fuel p s empty_data [] = Some (map (fun c => [c]) cs).
 
   (* ---------------------------------------------------------------------------------------- *)
   (* several peers: hosts, particles in flight, histories *)
